@@ -101,6 +101,15 @@ pub const LONG_TEXT_BRANCHES: &[Branch] = &[
     br!(17, 1080, "t17-120bytes"),
 ];
 
+/// MMSIs with a meaning of their own in the maritime numbering plan (ITU-R M.585): search and
+/// rescue transmitters 970, man overboard 972, EPIRB 974, aids to navigation 99, craft associated
+/// with a parent ship 98, SAR aircraft 111, coast stations 00, groups 0, handheld 8; plus the
+/// numeric extremes. Decoding of any other field must not depend on the sender's number.
+pub const SPECIAL_MMSI: [u32; 18] = [
+    970_123_456, 970_000_000, 970_999_999, 972_000_001, 974_999_999, 992_351_000, 982_351_234, 111_232_506, 2_320_001, 23_200_001,
+    812_345_678, 0, 1, 999_999_999, 1_000_000_000, (1 << 30) - 1, 200_000_000, 799_999_999,
+];
+
 pub fn gen_message(b: &Branch, r: &mut Rng) -> Bits {
     let mut bits = Bits::random(b.len, r);
     bits.put(0, 6, b.t as u64);
